@@ -238,7 +238,7 @@ def norm_mcfg(c):
                     "rmin": a.get("retry_min", 1000), "rmax": a.get("retry_max", 10000),
                     "ka": -1 if a.get("keep_alive") is None else a["keep_alive"],
                     "ovfInteg": a.get("integrity_on_overflow", True), "evscan": anyb(a.get("event_scan"), False),
-                    "maxq": a.get("max_queue", 16)})
+                    "maxq": a.get("max_queue", 16), "clock": c.get("time_base") is not None})
     return {"maddr": c.get("maddr", 1), "assocs": out, "enabled": c.get("enabled", True)}
 
 
